@@ -1,6 +1,7 @@
 (* C03 - property theorems.  Statements, [exact], [Print Assumptions]; nothing else. *)
 From Coq Require Import Reals List Bool Arith.
 From NessaiV Require Import Lib.Enclose Model.C03_Meta Proofs.C03_Meta_proofs.
+From NessaiV Require Proofs.C03_Unbiased_proofs.
 Import ListNotations.
 Local Open Scope R_scope.
 
@@ -65,3 +66,23 @@ Example C03_nonvacuous : order_ok true order_today = true /\ order_ok false orde
   /\ order_ok true [EUpdateWeights; EDraw Train; EAppendCol Train; ERecomputeQ Train; ERecomputeW Train; EInsert Train;
                     EDraw Iid; EInsert Iid] = false.
 Proof. vm_compute. repeat split. Qed.
+
+(* ---- what the bookkeeping buys (link to the calibration property C06, which is otherwise not decidable by proof):
+   over a finite sample space, with the meta-proposal Q = sum_j (c_j / N) q_j that the sampler maintains, the expectation
+   of the importance estimator (1/N) sum_j sum_{i <= c_j} f(x_ji) / Q(x_ji), x_ji ~ q_j, is sum_x f(x) - for any
+   proposals and counts, provided Q > 0 wherever f <> 0. *)
+Theorem C03_estimator_unbiased :
+  forall (pt : Type) (xs : list pt) (q : nat -> pt -> R) (f : pt -> R) (cs : list nat),
+    (forall x, In x xs -> f x <> 0 -> C03_Unbiased_proofs.Qmix pt q cs x <> 0) ->
+    C03_Unbiased_proofs.EZhat pt xs q f cs = C03_Unbiased_proofs.sumX pt xs f.
+Proof. exact C03_Unbiased_proofs.estimator_unbiased. Qed.
+Print Assumptions C03_estimator_unbiased.
+
+(* the hypothesis is satisfiable: two points, a flat initial proposal and one concentrated on the first point *)
+Example C03_unbiased_nonvacuous :
+  let q := fun (j : nat) (x : bool) => match j with O => 1 / 2 | _ => if x then 1 else 0 end in
+  forall x, In x [true; false] -> (if x then 3 else 5) <> 0 -> C03_Unbiased_proofs.Qmix bool q [2%nat; 6%nat] x <> 0.
+Proof.
+  intros q x Hx _. unfold C03_Unbiased_proofs.Qmix, C03_Unbiased_proofs.sumJ, C03_Unbiased_proofs.total, q.
+  cbn [fold_right plus]. destruct x; simpl INR; apply Rgt_not_eq; Lra.lra.
+Qed.
